@@ -6,7 +6,7 @@
 (***************************************************************************)
 EXTENDS Project, TypeLang, Json
 
-CONSTANT Mode,   \* "disc" | "graphs3" | "edges" | "edges2" | "layouts" | "derives" | "emits"
+CONSTANT Mode,   \* "disc" | "graphs3" | "edges" | "edges2" | "pairroots" | "layouts" | "derives" | "emits"
          EmitDepth \* 2 | 3 : deepest frame path of the emit cases
 VARIABLE c
 
@@ -62,6 +62,23 @@ Edges2Cases ==
       : <<c1, c2>> \in {p \in Ctxs \X Ctxs : CtxOK(p[2], Node("B")) /\ CtxOK(p[1], Apply(p[2], Node("B")))},
         rsite \in {"param", "ret"} }
 
+\* ---- C07: a root that mentions TWO project types at once (an event payload (A, B), a parameter HashMap<A, B>, ...)
+\* next to a root that mentions one of them alone.  B (and C behind it) is reachable only through the pair.
+\* `ord` fixes the source order of the two functions; `also` lists the further types a root mentions.
+PairTy(pc) == CASE pc = "tup_ab"  -> [k |-> "tup", ts |-> <<Node("A"), Node("B")>>]
+                [] pc = "tup_ba"  -> [k |-> "tup", ts |-> <<Node("B"), Node("A")>>]
+                [] pc = "vec_tup" -> [k |-> "vec", a |-> [k |-> "tup", ts |-> <<Node("A"), Node("B")>>]]
+                [] pc = "hmap_ab" -> [k |-> "hmap", a |-> Node("A"), b |-> Node("B")]
+                [] pc = "opt_tup3" -> [k |-> "opt", a |-> [k |-> "tup", ts |-> <<L("num"), Node("A"), Node("B")>>]]
+PairRootCases ==
+    { [kind |-> "graph", nodes |-> <<"A", "B", "C">>,
+       edges |-> [n \in N3 |-> IF n = "B" THEN {[ctx |-> "direct", to |-> "C", ty |-> Node("C")]} ELSE {}],
+       serde |-> [n \in N3 |-> TRUE],
+       roots |-> {[site |-> ss, ctx |-> "direct", to |-> "A", ty |-> Node("A"), also |-> {}, ord |-> so],
+                  [site |-> ps, ctx |-> pc, to |-> "A", ty |-> PairTy(pc), also |-> {"B"}, ord |-> 3 - so]}]
+      : ss \in {"param", "ret", "chan", "event"}, ps \in {"param", "ret", "chan", "event"},
+        pc \in {"tup_ab", "tup_ba", "vec_tup", "hmap_ab", "opt_tup3"}, so \in {1, 2} }
+
 \* ---- C07: the same graphs spread over files.  `place` maps the command file ("cmd") and every type to one of four
 \* file slots; slot order is the order in which the analyser walks the files (path order), so all 256 assignments
 \* cover every relative order of "file that mentions a type" and "file that defines it", on chains (depth 2),
@@ -97,7 +114,8 @@ Tails == {"stmt", "let_init", "match_arm_expr", "try_op", "await", "unwrap_recv"
 Frames == {"if_then", "if_else", "else_if", "else_if_else", "if_let", "match_arm_block", "loop", "labeled_loop",
            "while", "while_let", "for", "nested_block", "labeled_block", "let_init_if", "let_init_match",
            "unsafe_block", "async_block", "closure", "nested_fn"}
-Receivers == {"app", "window", "webview", "self_app", "self_window", "method_result", "handle", "other_field"}
+\* "global_method": the handle comes out of a global (APP.get().unwrap().emit(..)) and the enclosing function has NO parameters
+Receivers == {"app", "window", "webview", "self_app", "self_window", "method_result", "global_method", "handle", "other_field"}
 Methods == {"emit", "emit_to"}
 EmitRec(fs, p, r, m, li) == [kind |-> "emit", frames |-> fs, placed |-> p, receiver |-> r, method |-> m, lit |-> li]
 \* depth <= 1: the full product; depth 2: every frame pair x every tail on the plain receiver;
@@ -116,6 +134,7 @@ Space == CASE Mode = "disc"    -> DiscCases
            [] Mode = "layouts" -> LayoutCases
            [] Mode = "derives" -> DeriveCases
            [] Mode = "edges2"  -> Edges2Cases
+           [] Mode = "pairroots" -> PairRootCases
            [] Mode = "emits"   -> EmitCases
 Init == c \in Space
 Next == UNCHANGED c
@@ -124,7 +143,9 @@ SetSeq(S) == IF S = {} THEN <<>> ELSE LET RECURSIVE F(_) F(T) == IF T = {} THEN 
 Out(x) == IF x.kind = "graph"
           THEN [kind |-> "graph", nodes |-> x.nodes,
                 edges |-> [n \in DOMAIN x.edges |-> SetSeq(x.edges[n])],
-                serde |-> x.serde, roots |-> SetSeq(x.roots),
+                serde |-> x.serde,
+                roots |-> LET rs == SetSeq(x.roots) IN
+                          [i \in DOMAIN rs |-> IF "also" \in DOMAIN rs[i] THEN [rs[i] EXCEPT !.also = SetSeq(@)] ELSE rs[i]],
                 place |-> IF "place" \in DOMAIN x THEN x.place ELSE [n \in {"cmd"} |-> 1],
                 derive |-> IF "derive" \in DOMAIN x THEN x.derive ELSE [n \in {"-"} |-> "-"]]
           ELSE x
